@@ -222,6 +222,12 @@ def run(ctx):
         ctx.notes.append("exhaustive: all %d histories of depth 5 over 8 event kinds" % n)
     drive(ctx, hs, lambda ctx, evs, tokens, obs, sf, steps: check_c08(ctx, evs, tokens, obs, sf))
     reuse_scenarios(ctx)
+    # the same with the real `ZBOSS` as the upper layer: requests, responses, unsolicited indications of every kind, close,
+    # loss, connect - the number moves by matching acknowledgements only
+    import hostdrive
+    from props import c11
+    c11.run_generic(ctx, hostdrive.monitor_c08, ctx.scale(120, 1200),
+                    weights=dict(start=5, ack=6, rsp=2, ind=3, tick=2, cancel=0.5, badack=1, close=0.15, lost=0.05))
 
 
 def reuse_scenarios(ctx):
